@@ -3,7 +3,7 @@
 package main
 
 // The tie of MiniJS STATEMENTS (coq/Model/MiniJS.v: js_exec) to V8: random statements of the subset of
-// C04_gen_correct_partial_stmt (raw text, print with directives, let, if / elseif / else, switch with case
+// C04_gen_correct_partial_stmt (raw text, print with directives, let in both forms, if / elseif / else, switch with case
 // groups and default, nested blocks) are given to the model (op minijs_stmt), which returns the JavaScript
 // text the generator model writes for them (sprint (sgen s)), the text the subset semantics writes (sout)
 // and the variables after MiniJS executed the statement (js_exec) from an empty buffer; node runs the same
@@ -60,6 +60,11 @@ func (g *cexprGen) stmt(d int) string {
 			return "(slet " + sx(nm) + " " + e + ")"
 		}
 		nm := g.r.Pick([]string{"z", "s", "z"})
+		if d > 0 && g.r.Chance(40) {
+			body := g.blk(d - 1) // {let $z}...{/let}: the name is bound after its body
+			g.strVars = append(g.strVars, nm)
+			return "(sletc " + sx(nm) + " " + body + ")"
+		}
 		e := g.expr(1, 2)
 		g.strVars = append(g.strVars, nm)
 		return "(slet " + sx(nm) + " " + e + ")"
@@ -212,7 +217,7 @@ func c04StmtTie(e *env, n int) {
 				cls = "outside-subset"
 			}
 			e.res.Count("stmt:"+it.req, it.sout != "none", "minijs-stmt:"+cls+":"+it.cls)
-			for _, f := range []string{"var ", "} else if (", "} else {", "switch (", "default:", "case "} {
+			for _, f := range []string{"var ", " = '';", "} else if (", "} else {", "switch (", "default:", "case "} {
 				if strings.Contains(it.text, f) {
 					e.res.Histogram["minijs-stmt:has:"+strings.TrimSpace(f)]++
 				}
